@@ -51,6 +51,8 @@ pub struct Obs {
     pub violation_sigs: BTreeMap<String, u64>,
     pub counters: BTreeMap<String, u64>,
     pub maxima: BTreeMap<String, u64>,
+    /// named sets of hashes whose sizes are reported as distinct counts (e.g. request traces)
+    pub sets: BTreeMap<String, HashSet<u64>>,
     pub notes: Vec<String>,
     pub inconclusive: Vec<String>,
 }
@@ -108,6 +110,10 @@ impl Obs {
         }
     }
 
+    pub fn distinct(&mut self, key: &str, h: u64) {
+        self.sets.entry(key.to_string()).or_default().insert(h);
+    }
+
     pub fn inconclusive(&mut self, why: impl Into<String>) {
         self.inconclusive.push(why.into());
     }
@@ -138,6 +144,9 @@ impl Obs {
             if v > *e {
                 *e = v;
             }
+        }
+        for (k, v) in o.sets {
+            self.sets.entry(k).or_default().extend(v);
         }
         self.notes.extend(o.notes);
         self.inconclusive.extend(o.inconclusive);
@@ -280,6 +289,9 @@ impl Ctx {
         for (k, v) in &self.obs.maxima {
             println!("observed: max {}={}", k, v);
         }
+        for (k, v) in &self.obs.sets {
+            println!("observed: distinct {}={}", k, v.len());
+        }
         for n in &self.obs.notes {
             println!("note: {}", n);
         }
@@ -326,6 +338,9 @@ impl Ctx {
         }
         for (k, v) in &self.obs.maxima {
             observed.insert(format!("max_{}", k), json!(v));
+        }
+        for (k, v) in &self.obs.sets {
+            observed.insert(format!("distinct_{}", k), json!(v.len()));
         }
         coverage.insert("observed".into(), Value::Object(observed));
         for (k, v) in std::mem::take(&mut self.extra) {
